@@ -17,16 +17,16 @@ RULE = ("one evaluation = one phone string (token vs independent HMAC-SHA1), one
 ASSUMPTIONS = ["the three token constants are frozen copies of the pinned tree (data/reg_constants.json), not a second origin",
                "text values are valid unicode (no lone surrogates); nothing is sent anywhere (preview mode, audit hook)",
                "hmac/urllib.parse/cryptography are trusted"]
-REQUIRED = ["request_resends", "concurrent_token_rounds", "token_yields", "token_cases", "urlencode_cases", "encrypt_cases", "request_objects", "escaped_values"]
+REQUIRED = ["two_env_tokens", "request_resends", "concurrent_token_rounds", "token_yields", "token_cases", "urlencode_cases", "encrypt_cases", "request_objects", "escaped_values"]
 
 DATA = os.path.join(os.path.dirname(os.path.dirname(os.path.dirname(os.path.abspath(__file__)))), "data")
 SAFE = set("ABCDEFGHIJKLMNOPQRSTUVWXYZabcdefghijklmnopqrstuvwxyz0123456789.")
 
 
-def ref_token(phone):
+def ref_token(phone, md5_classes_b64=None):
     c = json.load(open(os.path.join(DATA, "reg_constants.json")))
     key = base64.b64decode(c["key_b64"])[:64]
-    msg = base64.b64decode(c["signature_b64"]) + base64.b64decode(c["md5_classes_b64"]) + phone.encode("utf-8")
+    msg = base64.b64decode(c["signature_b64"]) + base64.b64decode(md5_classes_b64 or c["md5_classes_b64"]) + phone.encode("utf-8")
     return base64.b64encode(hmac.new(key, msg, hashlib.sha1).digest())
 
 
@@ -280,6 +280,34 @@ def gen_phone(r):
     return "".join(r.choice("+ -()0123456789") for _ in range(r.randint(0, 16)))
 
 
+def two_envs(acc, seed, sh, n):
+    """A second environment class (another app version: other classes digest) next to the bundled one, as an application that
+    pins a version defines it: each environment's token is the keyed hash with that environment's own constants, whatever was
+    asked of the other one before."""
+    from yowsup.env.env_android import AndroidYowsupEnv
+    other_md5 = base64.b64encode(hashlib.md5(b"verif other classes.dex").digest()).decode()
+
+    class VerifPinnedEnv(AndroidYowsupEnv):
+        _VERSION = "2.99.9.9"
+        _MD5_CLASSES = other_md5
+    envs = [(AndroidYowsupEnv(), None, "bundled"), (VerifPinnedEnv(), other_md5, "pinned")]
+    for i in range(n):
+        r = gen.rng(seed, ID, "envs/%d/%d" % (sh, i))
+        ph = gen_phone(r)
+        order = envs if r.random() < 0.5 else envs[::-1]
+        for envo, md5, nm in order:
+            acc.count("two_env_tokens")
+            try:
+                got = envo.getToken(ph)
+            except Exception as e:  # noqa
+                acc.violation("token-raises:%s" % type(e).__name__, "getToken(%r) raised %r on the %s environment" % (ph, e, nm), {"op": "two-envs", "phone": ph, "env": nm})
+                continue
+            if got != ref_token(ph, md5):
+                acc.violation("token-differs:second-environment", "getToken(%r) of the %s environment is not the keyed hash with that environment's constants (the other environment was asked %s)"
+                              % (ph, nm, "before" if order[0][2] != nm else "afterwards"), {"op": "two-envs", "phone": ph, "env": nm})
+        acc.case(["envs", ph], nontrivial=True)
+
+
 def concurrent_tokens(acc, seed, sh, rounds):
     """Tokens for different numbers computed at the same time on the process-wide environment object (two registrations, or a
     registration next to a running stack): each caller must get the token of its own number."""
@@ -376,6 +404,7 @@ def run(spec, acc):
         check_encrypt(acc, W, r, params, "enc/%d/%d" % (sh, i), eph)
     acc.count("distinct_ephemeral_keys", len(eph))
     concurrent_tokens(acc, seed, sh, spec.get("ctok", 6))
+    two_envs(acc, seed, sh, 200 if spec.get("ctok", 6) <= 6 else 4000)
     check_request_objects(acc, "%s/%d" % (seed, sh), spec["req"])
 
 
